@@ -20,13 +20,18 @@ def kind_pairs(o):
     return set((a, b) for i, a in enumerate(kinds) for b in kinds[i + 1:])
 
 
-def conc_stage(ctx, name, tier, gate_blobs=False, max_schedules=400):
+def conc_stage(ctx, name, tier, gate_blobs=False, max_schedules=400, txn_ops=False, only=None):
     vh = ctx.build()
     sd = ctx.specdir()
     work = tempfile.mkdtemp(prefix="conc-", dir=ctx.scratch)
     cmd = [vh, "conc-explore", "--tier", tier, "--seed", str(ctx.seed), "--out", work, "--max-schedules", str(max_schedules)]
+    cmd += ["--par", "8"]
     if gate_blobs:
         cmd.append("--gate-blobs")
+    if txn_ops:
+        cmd.append("--gate-txn-ops")
+    if only:
+        cmd += ["--only", only]
     r = subprocess.run(cmd, capture_output=True, text=True, env=ENV, timeout=3000)
     if r.returncode != 0:
         raise Inconclusive("conc-explore failed: " + r.stdout[-500:] + r.stderr[-1500:])
@@ -44,7 +49,7 @@ def conc_stage(ctx, name, tier, gate_blobs=False, max_schedules=400):
     ctx.cov["traces_validated_against_impl"] += meta["schedules"]
     ctx.cov["checker_cmd"].append("vh " + " ".join(cmd[1:]) + " ; tlc -config Lin.cfg Lin.tla")
     st = {"stage": name, "programs": meta["programs"], "schedules_executed_on_real_code": meta["schedules"], "distinct_histories": meta["histories"],
-          "histories_linearizable": len(accepted), "programs_truncated_at_max_schedules": meta["truncated_programs"], "gate_blobs": gate_blobs}
+          "histories_linearizable": len(accepted), "programs_truncated_at_max_schedules": meta["truncated_programs"], "gate_blobs": gate_blobs, "gate_txn_ops": txn_ops, "only_programs_with": only or "all"}
     ctx.cov["stages"].append(st)
     if meta["truncated_programs"]:
         ctx.cov["exhaustive"] = False
@@ -62,7 +67,7 @@ def conc_stage(ctx, name, tier, gate_blobs=False, max_schedules=400):
         ex = {"history": ["%s" % s for s in o["steps"]], "call": json.dumps(o["program"]), "expected": "a sequential order of the operations reproducing results and final tree (FSCore)",
               "detail": "; ".join(o["results"]) + (" HANG" if o["hang"] else ""), "state": "", "init": ""}
         ctx.divs.append({"prop": "C15", "sig": sig, "count": 1, "example": ex, "stage": name, "module": "conc", "adapter": "mem",
-                         "vh_args": [], "init": "", "conc": {"program": o["program"], "schedule": o["schedule"], "gate_blobs": gate_blobs}})
+                         "vh_args": [], "init": "", "conc": {"program": o["program"], "schedule": o["schedule"], "gate_blobs": gate_blobs, "gate_txn_ops": txn_ops}})
     for o in two:
         add(o, ("conc-hang " if o["hang"] else "") + conc_sig2(o))
     for o in rest:
@@ -104,9 +109,11 @@ def race_stage(ctx, seconds):
 def c15_stages(ctx):
     if ctx.tier == "quick":
         conc_stage(ctx, "conc-2x1", "quick")
+        conc_stage(ctx, "conc-2x1-txnops", "quick", txn_ops=True, only="rename")
         race_stage(ctx, 5)
     else:
         conc_stage(ctx, "conc-2x1", "quick")
+        conc_stage(ctx, "conc-2x1-txnops", "quick", txn_ops=True, max_schedules=600)
         conc_stage(ctx, "conc-2x1-blobs", "quick", gate_blobs=True, max_schedules=1500)
         conc_stage(ctx, "conc-3x1-2x2", "thorough", max_schedules=600)
         race_stage(ctx, 30)
